@@ -990,6 +990,34 @@ theorem footAttrs_convert (A : TblAttrsOf MatV) (o : Option String) : (footAttrs
   | none => rfl
   | some s => dsimp only; split <;> rfl
 
+/-- every entry of a valid boundary vector is positive -/
+theorem cellxOk_pos : ∀ (cs : List CellG) (last : Int), cellxOk last cs = true → ∀ c ∈ cs, 0 < c.cellx
+  | [], _, _ => fun c hc => by simp at hc
+  | x :: xs, last, h => by
+    simp only [cellxOk, Bool.and_eq_true, decide_eq_true_eq] at h
+    intro c hc
+    rcases List.mem_cons.mp hc with rfl | hc
+    · exact h.1.1
+    · exact cellxOk_pos xs x.cellx h.2 c hc
+
+/-- the single boundary "last entry of a valid vector" is a valid vector (table-rendered footnote / source) -/
+theorem cumOk_last {cum : List Rat} (h : CumOk cum) : CumOk cum.getLast?.toList := by
+  intro n
+  cases hl : cum.getLast? with
+  | none => simp [cellxOk]
+  | some c =>
+    have hm : c ∈ cum := List.mem_of_getLast? hl
+    have hall := h cum.length
+    rw [List.take_length] at hall
+    have hpos := cellxOk_pos _ _ hall ({ defn := [], cellx := twip c, content := [] } : CellG)
+      (List.mem_map.mpr ⟨c, hm, rfl⟩)
+    cases n with
+    | zero => simp [cellxOk]
+    | succ n =>
+      simp only [Option.toList, List.take_succ_cons, List.take_nil, List.map_cons, List.map_nil, cellxOk,
+        Bool.and_true, Bool.and_eq_true, decide_eq_true_eq]
+      exact ⟨hpos, Int.le_of_lt hpos⟩
+
 theorem renderFoot_ok {k : ColorCtx} {d : Doc} {f : Foot} {override : Option String} {es : List Elem}
     (h : renderFoot k d f override = .ok es) (hd : footOk d.page.colWidth (some f) = true)
     (hW : 0 < twip d.page.colWidth) : ∀ e ∈ es, ElemOk e := by
@@ -1020,7 +1048,7 @@ theorem renderFoot_ok {k : ColorCtx} {d : Doc} {f : Foot} {override : Option Str
       · peel h as x hx
         exact (throw_ok hx).elim
       · apply encodeRows_ok (A := footAttrs A override) h
-          (cumOk_colWidths w _ (pos_of_twip_pos hW) (allPos_of_posW hpw) hfw) hF
+          (cumOk_last (cumOk_colWidths w _ (pos_of_twip_pos hW) (allPos_of_posW hpw) hfw)) hF
         intro cells hcells c hcm b hb
         simp only [List.mem_cons, List.not_mem_nil, or_false] at hcells
         subst hcells
